@@ -2142,7 +2142,9 @@ impl<'a, R: FileManager> FrontendCtx<'a, R> {
             Some(its) => {
                 let mut args = vec![];
                 for ty in &its.params {
-                    let arg_ty = self.extract_type(ty, file.clone())?;
+                    // type arguments are written in the referring file (anchor), which differs from
+                    // `file` for import("./m").G<Arg>
+                    let arg_ty = self.extract_type(ty, anchor.f.clone())?;
                     args.push(arg_ty);
                 }
                 args
@@ -2809,7 +2811,7 @@ impl<'a, R: FileManager> FrontendCtx<'a, R> {
                         Some(its) => {
                             let mut args = vec![];
                             for ty in &its.params {
-                                let arg_ty = self.extract_type(ty, resolved.clone())?;
+                                let arg_ty = self.extract_type(ty, file.clone())?;
                                 args.push(arg_ty);
                             }
                             args
